@@ -109,6 +109,8 @@ P["C07"] = dict(
         ("Props.C07.C07_json_no_crash", "JSON scanner model never reaches a runtime-panic site, all byte strings, both modes"),
         ("Props.C07.C07_enum_no_crash", "enum-rule scanner model: for every byte string no stack underflow / mismatched closer / fuel exhaustion — every error is structured"),
         ("Props.C07.C07_enum_len_no_crash", "the same for the enum scanner's Length"),
+        ("Props.C07.C07_schema_no_crash", "schema scanner model (~60 states, three stacks): for every byte string no stack underflow / mismatched closer / unexpected context / fuel exhaustion — every error is structured"),
+        ("Props.C07.C07_schema_len_no_crash", "the same for the schema scanner's Length"),
         ("Props.C07.C07_render_total", "Error() rendering total inside the content")) + ob("JSight.Tie.Errors",
         ("Gen.C07_format_sites", "every errors.Format site passes as many arguments as the template has placeholders (regenerated table)"),
         ("Gen.C07_bare_sites", "every bare error code used as an error value has a placeholder-free template"),
@@ -190,6 +192,7 @@ P["C13"] = dict(
     lean_targets=["JSight.Props.C13", "JSight.Props.C01"],
     obligations=ob("JSight.Props.C13",
         ("Props.C13.C13_whitespace_invariant", "two valid texts with the same tree modulo layout give the same event-type sequence"),
+        ("Props.C13.C13_rule_name_spelling", "bare and quoted spelling of a rule name, with any blanks around, give the loader the same name"),
         ("Props.C13.C13_newline_idempotent", "loader model: a new-line event after a new-line event changes nothing (LF / CR / CRLF, blank lines)"),
         ("Props.C13.C13_newline_run_absorbed", "loader model: any run of further new-line events is absorbed"),
         ("JsonScan.evs_types", "event types are a function of the stripped tree")) + ob("JSight.Props.C01",
@@ -205,6 +208,7 @@ P["C14"] = dict(
     obligations=ob("JSight.Props.C14",
         ("Props.C14.C14_json_len", "Len of an embedded JSON document = length of the document without trailing blanks"),
         ("Props.C14.C14_events_embedded", "events of an embedded document then end-top at the foreign byte"),
+        ("Props.C14.C14_enum_len", "enum rule text ws [ items ] ws (grammar tokens, any layout incl. line breaks): Len is the offset just after the closing bracket"),
         ("Props.C14.C14_len_error", "a scanner error is the error of Len")),
     runs=[{"cmd": ["c14-len"]}, {"cmd": ["json-diff"]}, {"cmd": ["schema-diff"]}, {"cmd": ["enum-diff"]}],
     partial="JSON documents: theorem; schema and enum Len: models validated against the code + property exploration",
@@ -262,6 +266,9 @@ P["C18"] = dict(
     lean_targets=["JSight.Props.C18"],
     obligations=ob("JSight.Props.C18",
         ("Props.C18.C18_regex_extract", "/P/rest yields pattern P and Len |P|+2"),
+        ("Props.C18.C18_enum_events", "enum rule text with pairwise distinct (decoded text, kind) items: the scan succeeds with the events the grammar predicts"),
+        ("Props.C18.C18_enum_values", "the literal events, in order, span exactly the item tokens: Values lists the literals in source order"),
+        ("Props.C18.C18_enum_duplicate", "the first item whose (decoded text, kind) repeats an earlier one is rejected with error 810 at its first byte"),
         ("Props.C18.C18_goquote_roundtrip", "Go %q then the library's Unquote gives the pattern back")),
     runs=[{"cmd": ["c18-named"]}, {"cmd": ["enum-diff"]}, {"cmd": ["unquote-diff"]}],
     partial="token extraction and the quoting hand-over are theorems; enum rule vs inline list, regexp engine and example generator are explored / oracles",
